@@ -135,9 +135,15 @@ class ClientsV(Val):
     return IterSpec(seq=self.seq, codec=Codec(I, dec=lambda c: (CidV(c), BatchesV(c), TV(CIN(c)))))
 
 
+ID_TRUTHY = z3.Function('bool_of_client_id', I, z3.BoolSort())    # client ids are arbitrary hashables: 0, b'', '' are falsy
+
+
 class CidV(Val):
   def __init__(self, c):
     self.c = c
+
+  def truth(self, ctx):
+    return ID_TRUTHY(to_z3(self.c))
 
   @property
   def term(self):
